@@ -27,6 +27,7 @@ pub fn def() -> CheckDef {
         assumptions: &["Drop is never relied upon to write back (excluded by the statement): the workload flushes explicitly", "after a failed set_len or failed structural call the affected stream's expected content is unknown and no longer judged (inconclusive)"],
         cpu_limit_s: 180,
         fault_kinds: "F-WE, F-WT, F-SE, F-FE, F-RE at every k (enumerated), F-DF from every k with heal",
+        count_subruns: true,
     }
 }
 
